@@ -508,8 +508,8 @@ def build_core():
     return vplib.build("drv_core", ["utils", "mem", "structs", "thpool", "core"], ["drv_core.c"], extra_ldflags=CORE_WRAPS)
 
 
-def core_run(R, exe, cfg, mods, env, D, budget, walks, L, seed, maxpay=1, workers=4, timeout=2400):
-    tag = cfg.replace(".cfg", "")
+def core_run(R, exe, cfg, mods, env, D, budget, walks, L, seed, maxpay=1, workers=4, timeout=2400, suffix=""):
+    tag = cfg.replace(".cfg", "") + suffix
     e = {"VP_MODS": ",".join(mods), "VP_MAXPAY": str(maxpay), "GW_FORK": "1", "GW_COVER_TAIL": "3"}
     if R.tier == "quick":
         e["GW_COVER_MAX"] = "25000"
@@ -551,7 +551,7 @@ CORE_CFGS = {
 }
 
 
-def core_check(prop, tier, seed, quick_cfgs, thorough_cfgs, rule, Dq=5, Dt=7, budget_q=60000, budget_t=4000000):
+def core_check(prop, tier, seed, quick_cfgs, thorough_cfgs, rule, Dq=5, Dt=7, budget_q=60000, budget_t=4000000, loop_cfgs=()):
     R = Result(prop, tier, seed)
     exe = build_core()
     quick = tier == "quick"
@@ -563,6 +563,14 @@ def core_check(prop, tier, seed, quick_cfgs, thorough_cfgs, rule, Dq=5, Dt=7, bu
         tasks.append(lambda name=name, mods=mods, env=env, mp=mp: core_run(
             R, exe, "Core_mc_%s.cfg" % name, mods, env, Dq if quick else Dt, budget_q if quick else budget_t,
             1500 if quick else 100000, 40, seed, maxpay=mp, workers=max(2, 12 // len(cfgs))))
+    for name in loop_cfgs:
+        # the same programs driven through blocking m_ctx_loop() calls instead of dispatch calls (C03: same deliveries)
+        mods, env = CORE_CFGS[name]
+        env = dict(env, VP_LOOPMODE="1")
+        mp = int(env.get("VP_MAXPAY", "1"))
+        tasks.append(lambda name=name, mods=mods, env=env, mp=mp: core_run(
+            R, exe, "Core_mc_%s.cfg" % name, mods, env, Dq if quick else Dt, (budget_q if quick else budget_t) // 2,
+            1500 if quick else 100000, 40, seed, maxpay=mp, workers=2, suffix=".loop"))
     vplib.parallel(tasks, max_workers=4)
     R.rule = ("programs = paths of the dumped TLC graph of Core.tla (configs: %s) whose edges are public API calls made from the top "
               "level or from inside callbacks and callback returns; every program is completed to a clean state (context released, "
@@ -638,7 +646,9 @@ def c09(prop, tier, seed):
 @check("C03")
 def c03(prop, tier, seed):
     return core_check(prop, tier, seed, ["fdev", "ps2q", "subos"], ["fdev", "ps2q", "subos", "ps3", "pub2"],
-                      "Focus: events of descriptor / timer / pubsub sources reach their owner with the registration userdata only while RUNNING; one-shot removal; poll batches of several sources in every order; errno left behind by callbacks; loop ends only on quit / no running module.", Dq=5, Dt=7)
+                      "Focus: events of descriptor / timer / pubsub sources reach their owner with the registration userdata only while RUNNING; one-shot removal; poll batches of several sources in every order; errno left behind by callbacks; loop ends only on quit / no running module. "
+                      "Configurations marked .loop are replayed a second time in loop mode: the loop is driven by blocking m_ctx_loop() calls (top-level steps executed from inside the wrapped epoll_wait, the stopping dispatch being what m_ctx_loop does before returning the quit code) and must show the same deliveries, states and return code.",
+                      Dq=5, Dt=7, loop_cfgs=["ps2q", "fdev", "life"])
 
 
 @check("C20")
